@@ -487,7 +487,6 @@ coap_cancel_observe_lkd(coap_session_t *session, coap_binary_t *token,
                                                  otoken->s,
                                                  NULL);
 
-        lg_crcv->observe_set = 0;
         if (pdu == NULL)
           return 0;
         /* Need to make sure that this is the correct requested type */
@@ -519,6 +518,8 @@ coap_cancel_observe_lkd(coap_session_t *session, coap_binary_t *token,
         if (pdu->lg_xmit)
           pdu->lg_xmit->b.b1.state_token = lg_crcv->state_token;
 
+        /* The request is complete: the observation is being cancelled */
+        lg_crcv->observe_set = 0;
 #if COAP_Q_BLOCK_SUPPORT
         /* See if large xmit using Q-Block1 (but not testing Q-Block1) */
         if (using_q_block1) {
@@ -531,6 +532,13 @@ coap_cancel_observe_lkd(coap_session_t *session, coap_binary_t *token,
 #endif /* ! COAP_Q_BLOCK_SUPPORT */
         if (mid != COAP_INVALID_MID)
           return 1;
+        /* Not sent: can be cancelled again, if the lg_crcv is still there */
+        LL_FOREACH(session->lg_crcv, q) {
+          if (q == lg_crcv) {
+            q->observe_set = 1;
+            break;
+          }
+        }
         break;
       }
     }
